@@ -216,6 +216,12 @@ func (s *asgAPI) TerminateInstanceInAutoScalingGroup(in *autoscaling.TerminateIn
 		return nil, awsErr("ValidationError", "Instance Id not found - No managed instance found for instance ID: "+id)
 	}
 	g := a.asgs[i.ASG]
+	if i.Life == "Terminating" && w.faultStream(c).Chance(0.5) {
+		// what AWS answers for an instance that is already terminating is not pinned down by its documentation:
+		// both "accepted, nothing more to do" and a ValidationError are explored
+		w.endCall(c, false, "ValidationError: instance is already terminating")
+		return nil, awsErr("ValidationError", "Instance "+id+" is not in a valid state for termination")
+	}
 	if i.Life != "Terminating" {
 		if c.Decrement && g.Desired-1 < g.Min {
 			w.endCall(c, false, "ValidationError: would violate min size")
@@ -398,6 +404,12 @@ func (s *ec2API) DescribeInstanceStatusPages(in *ec2.DescribeInstanceStatusInput
 		w.endCall(c, false, "RequestLimitExceeded: sim injected")
 		return awsErr("RequestLimitExceeded", "sim: injected DescribeInstanceStatus failure")
 	}
+	if len(ids) > 100 {
+		// EC2: "Maximum 100 explicitly specified instance IDs"
+		w.endCall(c, false, "InvalidParameterValue: more than 100 explicitly specified instance ids")
+		return awsErr("InvalidParameterValue", "sim: at most 100 explicitly specified instance IDs per DescribeInstanceStatus call")
+	}
+	includeAll := awsapi.BoolValue(in.IncludeAllInstances)
 	now := time.Now()
 	page := 1 + w.faultStream(c).Intn(len(ids)+1)
 	if page > 100 {
@@ -416,6 +428,9 @@ func (s *ec2API) DescribeInstanceStatusPages(in *ec2.DescribeInstanceStatusInput
 					i.EC2State = "running"
 				}
 				st = i.EC2State
+			}
+			if !includeAll && st != "running" {
+				continue // without IncludeAllInstances only running instances are described
 			}
 			out.InstanceStatuses = append(out.InstanceStatuses, &ec2.InstanceStatus{InstanceId: awsapi.String(id), InstanceState: &ec2.InstanceState{Name: awsapi.String(st)}})
 		}
